@@ -26,17 +26,16 @@ META = {
             '(tied to the real ScanResultToProto by the `proto` stream: harvested packages of every extractor + every metadata type of the proto switch + nasty strings); the model of '
             'ToSPDX23 / ToCDX (Model/Sbom.lean, tied by C15\'s stream) carries name / version / purl string (+ all locations for CycloneDX) of each package. '
             'The rest of the record (model Model/ProtoResult.lean, tied by the `result` / `pfile` / `wfmt` ops): scan and plugin statuses, findings (advisory, id, type, severity, CVSS, target, extra, '
-            'detector names), the early error return and the deprecated copies; C14_result_outcome_partial (the outcome is the error of the FIRST finding without advisory / advisory id, else success), '
-            'C14_result_lossless_partial (reading the record back gives the result) — both under the hypotheses the current code needs, each shown necessary by a witness theorem '
-            '(C14_result_nil_severity_panics, C14_result_drops_detectors = the two recorded findings) — and C14_file_type (typeForPath, a model of filepath.Ext / TrimSuffix / the switch, accepts exactly '
+            'detector names), the early error return and the deprecated copies; C14_result_outcome (for EVERY result the outcome is the error of the FIRST finding without advisory / advisory id, else success; C14_result_never_panics), '
+            'C14_result_lossless_partial (reading the record back gives the result, for representable values) '
+            '(C14_result_detectors: the detector names are carried) — and C14_file_type (typeForPath, a model of filepath.Ext / TrimSuffix / the switch, accepts exactly '
             'the paths ending in .binproto / .textproto [.gz], for ALL paths). '
             'With this the PROVABLE part covers every clause of the property except (a) the behaviour of the 58 ToPURL / Ecosystem implementations on what Extract returned (no panic, non-empty '
             'name and location) and (b) packageurl-go\'s printing/parsing (idempotence), which are third-party / per-extractor code exercised by the harvest, layout, accept and purlrt streams only. '
             'NOT proved: absence of panics in 58 ToPURL/Ecosystem implementations on arbitrary Extract output, packageurl-go print∘parse idempotence, non-empty name/location, '
             'converter field preservation — these are exercised by the harvest over all fixtures only (C03 generators / C02 corpus are not wired in).',
     'note': 'Trusted: Lean kernel; the go/ast translator (copies constants, map keys and selector names faithfully; output is human-diffable); harness and line protocol. '
-            'Known findings: C14/jar-empty-artifact (a jar FILE NAME with nothing before the version gives a package without a name; repair prepared), C14/finding-detectors-dropped '
-            '(findingToProto does not copy Finding.Detectors; repair prepared), C14/finding-nil-severity-panics (an advisory without severity panics in severityToProto; repair prepared); C14/no-location (chrome/extensions and dotnet/pe emit packages without Locations; their unit tests pin that); C14/golang-case-normalised (go.mod module paths '
+            'Known findings: C14/no-location (chrome/extensions and dotnet/pe emit packages without Locations; their unit tests pin that); C14/golang-case-normalised (go.mod module paths '
             'with upper-case letters: purl.FromString lower-cases golang namespace/name, so print∘parse∘print differs from print).',
 }
 NS = 'Scalibr.Index.'
@@ -45,8 +44,8 @@ THEOREMS = [NS + t for t in ['C14_types_accepted', 'C14_types_resolved', 'C14_ex
            ['Scalibr.ProtoPkg.' + t for t in ['toInt32_id', 'C14_proto_fields', 'C14_proto_purl', 'C14_proto_layer_partial', 'C14_proto_layer_wraps',
                                              'C14_proto_annotations', 'C14_proto_list', 'C14_proto_lossless_partial', 'C14_proto_not_injective_outside']] + \
            ['Scalibr.Sbom.' + t for t in ['C14_spdx_fields', 'C14_spdx_not_verbatim', 'C14_cdx_fields']] + \
-           ['Scalibr.ProtoResult.' + t for t in ['C14_result_outcome_partial', 'C14_result_nil_severity_panics', 'C14_result_lossless_partial',
-                                                'C14_result_drops_detectors', 'C14_result_status_default', 'C14_file_type']]
+           ['Scalibr.ProtoResult.' + t for t in ['C14_result_outcome', 'C14_result_never_panics', 'C14_result_lossless_partial',
+                                                'C14_result_detectors', 'C14_result_status_default', 'C14_file_type']]
 KF_GOCASE = 'C14/golang-case-normalised'
 PROTO_KEYS = ['name', 'version', 'locs', 'src', 'anns', 'layer', 'purl', 'eco', 'ex', 'meta', 'pstr']
 KF_NOLOC = 'C14/no-location'
